@@ -3,7 +3,7 @@
    (PERT-free priority rules, no individual absences, auto-task flag off). *)
 From Coq Require Import List ZArith QArith Bool Arith Lia.
 From PV Require Import Model.Types Model.Sim Model.LogEdit Proofs.Base Proofs.Frames Proofs.Proj Proofs.RunLemmas
-  Proofs.LogsProof Proofs.C13Proof Proofs.C13Run Proofs.C15Proof Proofs.C18Proof Proofs.KeyCong Proofs.KeepList Proofs.C10Del.
+  Proofs.LogsProof Proofs.C13Proof Proofs.C13Run Proofs.C15Proof Proofs.C18Proof Proofs.C03Res Proofs.KeyCong Proofs.KeepList Proofs.C10Del Proofs.C10Auto.
 Import ListNotations.
 Open Scope nat_scope.
 
@@ -140,14 +140,20 @@ Proof.
 Qed.
 
 Hypothesis Hrule : pert_free (o_rule oA).
-Hypothesis Hauto : o_auto_abs oA = false.
 Hypothesis Hwabs : forall w, w_abs c w = [].
 Hypothesis Hfabs : forall f, f_abs c f = [].
 Hypothesis HF : Forest c.
 Hypothesis Hinit : o_init_state oA = true.
 Hypothesis Hlog : o_init_log oA = true.
 
-Theorem deletion_gives_the_absence_free_run s0 :
+Section WithInvariant.
+Variable Iv : pstate -> Prop.
+Hypothesis Iv_next : forall x, Iv x -> Iv (next c oA (update c oA x)).
+Hypothesis Iv_stutter : forall x, Iv x -> mem (time x) L = true ->
+  KEg c false (half c oA (update c oA x)) (update c oA x).
+Hypothesis Iv_init : forall s0, Iv (initialize c oA s0).
+
+Lemma deletion_generic s0 :
   status (fst (simulate c oA s0)) = StSuccess ->
   same_result (snd (remove_absence c (L, fst (simulate c oA s0)))) (fst (simulate c oB s0)).
 Proof.
@@ -157,7 +163,8 @@ Proof.
   set (x0 := initialize c oA s0) in *.
   change (initialize c oB s0) with x0 in HtB0.
   destruct (logs_initialize_clear c oA s0 Hlog) as [H0 T0]. fold x0 in H0, T0.
-  destruct (sim c oA Hrule Hauto Hwabs Hfabs HF x0 trA _ HtA Hst x0) as (trB & fB & HtB & HsB & HfB & Hrows).
+  destruct (sim c oA Hrule Hwabs Hfabs HF Iv Iv_next Iv_stutter x0 trA _ HtA Hst x0) as (trB & fB & HtB & HsB & HfB & Hrows).
+  { apply Iv_init. }
   { apply PInv_initialize. exact Hinit. }
   { left. apply KE_refl. }
   { lia. }
@@ -169,6 +176,30 @@ Proof.
   apply (deletion_of_histories _ _ (perf_rows oA trA) (perf_rows oB trB)); try assumption.
   - rewrite Hst, HsB. reflexivity.
   - rewrite T0 in Hrows. exact Hrows.
+Qed.
+End WithInvariant.
+
+(* the auto-task flag is off *)
+Theorem deletion_gives_the_absence_free_run : o_auto_abs oA = false -> forall s0,
+  status (fst (simulate c oA s0)) = StSuccess ->
+  same_result (snd (remove_absence c (L, fst (simulate c oA s0)))) (fst (simulate c oB s0)).
+Proof.
+  intros Hauto. apply (deletion_generic (fun _ => True)); [intros; exact I| |intros; exact I].
+  intros x _ Hm. apply absence_half; [exact Hauto|]. rewrite (time_update c oA). exact Hm.
+Qed.
+
+(* the flag is on, but there is no automatic task *)
+Theorem deletion_auto_flag_without_auto_tasks :
+  (forall w, In w (all_workers c) -> w < nW c) -> NoDup (all_workers c) ->
+  (forall p f, In f (wp_facs c p) -> f < nF c) ->
+  o_auto_abs oA = true -> (forall t, t_auto c t = false) -> forall s0,
+  status (fst (simulate c oA s0)) = StSuccess ->
+  same_result (snd (remove_absence c (L, fst (simulate c oA s0)))) (fst (simulate c oB s0)).
+Proof.
+  intros Hw1 Hw2 Hf1 Hauto Hna. apply (deletion_generic (Q0 c)).
+  - intros x Hx. apply Q0_next; assumption.
+  - intros x Hx Hm. apply absence_half_auto; assumption.
+  - intros s0. apply Q0_initialize. exact Hinit.
 Qed.
 
 End Final.
